@@ -41,6 +41,18 @@ def run_one(mod, case, limit):
         res = {"status": "inconclusive", "harness_error": True, "note": traceback.format_exc()[-3000:]}
     finally:
         signal.alarm(0)
+    # Degenerate generated inputs: a random constraint whose decision variables cancel symbolically (x - x, u(tf) -
+    # u(t_N-1), factors of t at t0 = 0 ...) is legitimately refused by Opti / rockit.  The generators probe for this,
+    # the residual cases are discarded (never counted as held); a regression that turns valid constraints into
+    # constants still shows up as missing rows in the other cases.
+    degenerate = ("Constraint must contain decision variables", "You passed a constant to `subject_to`",
+                  "You have a constraint that is never statisfied")
+    viol = res.get("violations", [])
+    if viol and all(v.get("kind") == "exception" and any(d in v.get("detail", "") for d in degenerate) for v in viol) \
+            and case.get("kind") not in ("constant-false",):
+        res["violations"] = []
+        res["status"] = "discarded"
+        res["note"] = "degenerate generated constraint (decision variables cancel): " + viol[0]["mech"][:120]
     res.setdefault("status", "held")
     res.setdefault("evals", 0)
     res.setdefault("violations", [])
